@@ -64,7 +64,12 @@ func queryTimeFromString(t string) (time.Time, error) {
 
 func (t *BleveQueryTime) MarshalJSON() ([]byte, error) {
 	tt := time.Time(t.Time)
-	return []byte("\"" + tt.Format(QueryDateTimeFormat) + "\""), nil
+	layout := QueryDateTimeFormat
+	if layout == time.RFC3339 {
+		// keep sub-second precision; identical output for whole seconds
+		layout = time.RFC3339Nano
+	}
+	return []byte("\"" + tt.Format(layout) + "\""), nil
 }
 
 func (t *BleveQueryTime) UnmarshalJSON(data []byte) error {
